@@ -13,10 +13,12 @@ TRUSTED_BASE = [
 
 PROPS = {
     'C18': {
-        'suites': [('c18', 400, 20000)],
+        'suites': [('c18', 400, 20000), ('c18w', 120, 3000)],
         'rule': 'c18: random lists of 0-5 websocket messages (sizes around 0/1/1023/1024/1025/2048, 4% text) x random read-size sequences '
                 '(bufio-like 1024, mixed, tiny); non-trivial = total payload > 0, more than one read, and some read size strictly inside a message; '
-                'distinct = distinct case inputs',
+                'distinct = distinct case inputs. c18w (wire level): one MQTT byte stream (CONNECT, SUBSCRIBE, 1-12 QoS 1 PUBLISH of 0-1500 bytes to the own subscription, PINGREQ; 3.1 / 3.1.1 / 5; '
+                'configured max_packet_size default or 2048 / 4096 / 65536) sent to one in-process broker over TCP in one write and over its WebSocket listener cut into binary messages (all in one, one byte each, 1024-byte messages, '
+                'random cuts incl. empty messages); the answers (CONNACK, SUBACK, PUBACKs, PINGRESP, forwarded PUBLISH count) must be the same',
         'assumptions': ['gorilla/websocket delivers the messages the client sent, in order (it is the transport under test, not modelled further)',
                         'bufio.Reader in front of wsConn only issues Read calls of some sizes: the theorem quantifies over all size sequences'],
         'trusted': ['server/verif_hooks.go: VerifNewWsConn builds the wsConn exactly as wsHandler does'],
